@@ -1,5 +1,6 @@
 import J5V.Codec.RoundtripFlat
 import J5V.Codec.WireProofs
+import J5V.Codec.AnyProofs
 /-!
 # The induction on the encoder's fuel (C01, environments with flattened objects, exposed oneofs,
 proto oneofs — `Env.flat`)
@@ -383,7 +384,8 @@ theorem mapConform_of_all (env : Env) (O : Oracle) (item : Field) (g : PVal → 
       exact Wire.MapConform.cons item k' v kvs t lit (membersOf es) (hc (k', v) List.mem_cons_self t hg)
         (ih es hr (fun y hy => hc y (List.mem_cons_of_mem _ hy)))
 
-theorem RTP_val (c : Cfg) (hs : c.env.flat = true) (L : OracleLaws c.O) (f : Nat)
+theorem RTP_val (c : Cfg) (hs : c.env.flat = true) (L : OracleLaws c.O)
+    (hA : c.protoToAny = false ∨ c.env.noAny = true) (f : Nat)
     (ih : ∀ f' < f + 1, RTP c f') :
     ∀ fld v, fieldSimple fld = true → valOk c.env c.O fld v = true → 5 * v.depth + 1 ≤ f + 1 →
       ∃ t, encValue c.env c.O (f + 1) fld v = .ok t ∧ Dec c fld v t ∧
@@ -471,7 +473,19 @@ theorem RTP_val (c : Cfg) (hs : c.env.flat = true) (L : OracleLaws c.O) (f : Nat
       refine ⟨_, rfl, Dec_oneof c ref ops fs _ _ _ _ hfind hloop ?_ ?_, fun W => hconf W _ rfl⟩
       · rw [hfs]; rfl
       · rw [hfs]; exact hpost
-  | any pb => simp [fieldSimple] at hfs
+  | any pb =>
+    have hpb : pb = false := by simpa [fieldSimple] using hfs
+    subst hpb
+    obtain ⟨tn, j5, V, rfl, hna, hu, hj, hch, hr, hc, hd'⟩ := valOk_any _ _ v hok
+    have hmode : c.protoToAny = false := by
+      rcases hA with h | h
+      · exact h
+      · rw [h] at hna; cases hna
+    obtain ⟨tlit, nlit, vlit, he⟩ := enc_any_j5 c.env c.O f tn [] j5 .none "" (.msg []) hj hu
+    rw [chunkNode_some c.O j5 V hch hr] at he
+    refine ⟨_, he, ?_, fun _ => Wire.Conforms.any false _ tn tlit nlit vlit V rfl⟩
+    have := Dec_any c hmode tn tlit nlit vlit V hc hd'
+    rw [hr] at this; exact this
   | array item =>
     obtain ⟨xs, rfl, hlok⟩ := valOk_array _ _ item v hok
     have hi : itemSimple item = true := by simpa [fieldSimple] using hfs
@@ -773,7 +787,8 @@ theorem RTP_obj (c : Cfg) (hs : c.env.flat = true) (L : OracleLaws c.O) (f : Nat
         rw [hr'] at hr; cases hr; exact hsp) hall
 
 /-- **structure-level round trip with progress**, all fuels -/
-theorem RTP_all (c : Cfg) (hs : c.env.flat = true) (L : OracleLaws c.O) : ∀ f, RTP c f := by
+theorem RTP_all (c : Cfg) (hs : c.env.flat = true) (L : OracleLaws c.O)
+    (hA : c.protoToAny = false ∨ c.env.noAny = true) : ∀ f, RTP c f := by
   intro f
   induction f using Nat.strongRecOn with
   | _ f ih =>
@@ -783,11 +798,12 @@ theorem RTP_all (c : Cfg) (hs : c.env.flat = true) (L : OracleLaws c.O) : ∀ f,
       · intro fld v _ _ h; omega
       · intro props fs _ _ _ _ _ _ h; omega
       · intro ops fs _ _ _ _ h; omega
-    | succ f => exact ⟨RTP_val c hs L f ih, RTP_obj c hs L f ih, RTP_one c f ih⟩
+    | succ f => exact ⟨RTP_val c hs L hA f ih, RTP_obj c hs L f ih, RTP_one c f ih⟩
 
 /-- **C01 on trees, flat environments**: the encoder succeeds on every representable message and
 the decoder maps the tree back to exactly that message -/
-theorem roundtrip_tree_flat (c : Cfg) (hs : c.env.flat = true) (L : OracleLaws c.O) (root : String)
+theorem roundtrip_tree_flat (c : Cfg) (hs : c.env.flat = true) (L : OracleLaws c.O)
+    (hA : c.protoToAny = false ∨ c.env.noAny = true) (root : String)
     (m : Fields)
     (hok : valOk c.env c.O (.object root) (.msg m) = true ∨ valOk c.env c.O (.oneof root) (.msg m) = true) :
     ∃ t, encodeTree c.env c.O root (.msg m) = .ok t ∧ decRootTree c root t = .ok m := by
@@ -796,7 +812,7 @@ theorem roundtrip_tree_flat (c : Cfg) (hs : c.env.flat = true) (L : OracleLaws c
   rcases hok with hok | hok
   · obtain ⟨fs, props, hv, hfind, hsort, hfok, hgrp, hexp⟩ := valOk_object _ _ root _ hok
     cases hv
-    obtain ⟨ms, S, henc, hdec, _⟩ := (RTP_all c hs L (6 * (depthFields m + 1) + 9)).obj props m
+    obtain ⟨ms, S, henc, hdec, _⟩ := (RTP_all c hs L hA (6 * (depthFields m + 1) + 9)).obj props m
       (find_rootFlat c.env hs root _ hfind) (find_names_utf8' c.env hs root props (Or.inl hfind))
       hsort hfok hgrp hexp (by omega)
     refine ⟨.obj ms, ?_, ?_⟩
@@ -806,7 +822,7 @@ theorem roundtrip_tree_flat (c : Cfg) (hs : c.env.flat = true) (L : OracleLaws c
   · obtain ⟨fs, ops, hv, hfind, hsort, hfok, hlen⟩ := valOk_oneof _ _ root _ hok
     cases hv
     have hroot := rootFlat_oneof c.env ops (find_rootFlat c.env hs root _ hfind)
-    have hshape := (RTP_all c hs L (6 * (depthFields m + 1) + 9)).one ops m hroot
+    have hshape := (RTP_all c hs L hA (6 * (depthFields m + 1) + 9)).one ops m hroot
       (find_names_utf8' c.env hs root ops (Or.inr hfind)) (oneof_store_le ops m hroot hlen)
       (oneof_store_facts c ops m hroot hfok) (by omega)
     have henc : encRoot c.env c.O (6 * (depthFields m + 1) + 9 + 1) root (.msg m) =
@@ -841,8 +857,8 @@ theorem roundtrip_tree_flat (c : Cfg) (hs : c.env.flat = true) (L : OracleLaws c
 
 /-- **C08 on trees, flat environments**: the tree the encoder writes for a representable message
 has the documented structure -/
-theorem conforms_tree_flat (c : Cfg) (hs : c.env.flat = true) (L : OracleLaws c.O) (W : OracleWire c.O)
-    (root : String) (m : Fields)
+theorem conforms_tree_flat_aux (c : Cfg) (hs : c.env.flat = true) (L : OracleLaws c.O) (W : OracleWire c.O)
+    (hA : c.protoToAny = false ∨ c.env.noAny = true) (root : String) (m : Fields)
     (hok : valOk c.env c.O (.object root) (.msg m) = true ∨ valOk c.env c.O (.oneof root) (.msg m) = true) :
     ∃ t, encodeTree c.env c.O root (.msg m) = .ok t ∧ Wire.RootConforms c.env c.O root m t := by
   unfold encodeTree encFuel
@@ -850,7 +866,7 @@ theorem conforms_tree_flat (c : Cfg) (hs : c.env.flat = true) (L : OracleLaws c.
   rcases hok with hok | hok
   · obtain ⟨fs, props, hv, hfind, hsort, hfok, hgrp, hexp⟩ := valOk_object _ _ root _ hok
     cases hv
-    obtain ⟨ms, S, henc, _, hcf⟩ := (RTP_all c hs L (6 * (depthFields m + 1) + 9)).obj props m
+    obtain ⟨ms, S, henc, _, hcf⟩ := (RTP_all c hs L hA (6 * (depthFields m + 1) + 9)).obj props m
       (find_rootFlat c.env hs root _ hfind) (find_names_utf8' c.env hs root props (Or.inl hfind))
       hsort hfok hgrp hexp (by omega)
     refine ⟨.obj ms, ?_, Or.inl ⟨props, ms, hfind, rfl, hcf W⟩⟩
@@ -859,7 +875,7 @@ theorem conforms_tree_flat (c : Cfg) (hs : c.env.flat = true) (L : OracleLaws c.
   · obtain ⟨fs, ops, hv, hfind, hsort, hfok, hlen⟩ := valOk_oneof _ _ root _ hok
     cases hv
     have hroot := rootFlat_oneof c.env ops (find_rootFlat c.env hs root _ hfind)
-    have hshape := (RTP_all c hs L (6 * (depthFields m + 1) + 9)).one ops m hroot
+    have hshape := (RTP_all c hs L hA (6 * (depthFields m + 1) + 9)).one ops m hroot
       (find_names_utf8' c.env hs root ops (Or.inr hfind)) (oneof_store_le ops m hroot hlen)
       (oneof_store_facts c ops m hroot hfok) (by omega)
     have henc : encRoot c.env c.O (6 * (depthFields m + 1) + 9 + 1) root (.msg m) =
@@ -869,5 +885,13 @@ theorem conforms_tree_flat (c : Cfg) (hs : c.env.flat = true) (L : OracleLaws c.
     rw [henc]
     obtain ⟨t, ht, hoc⟩ := oneofConforms_of_shape c ops m _ hroot W hshape
     exact ⟨t, ht, Or.inr ⟨ops, hfind, hoc⟩⟩
+
+/-- conformance does not depend on the decoding mode: instantiate the induction with the codec
+without `WithProtoToAny` -/
+theorem conforms_tree_flat (c : Cfg) (hs : c.env.flat = true) (L : OracleLaws c.O) (W : OracleWire c.O)
+    (root : String) (m : Fields)
+    (hok : valOk c.env c.O (.object root) (.msg m) = true ∨ valOk c.env c.O (.oneof root) (.msg m) = true) :
+    ∃ t, encodeTree c.env c.O root (.msg m) = .ok t ∧ Wire.RootConforms c.env c.O root m t :=
+  conforms_tree_flat_aux { c with protoToAny := false } hs L W (Or.inl rfl) root m hok
 
 end J5V.Codec
